@@ -279,6 +279,12 @@ pub fn fullzip(_args: &hxlib::util::Args) -> i32 {
                             "i64" => Arc::new(Int64Array::from((0..rows).map(|i| vals(i)).collect::<Vec<_>>())),
                             _ => Arc::new(FixedSizeBinaryArray::try_from_sparse_iter_with_size((0..rows).map(|i| vals(i).map(|v| vec![v as u8, 1, 2])), 3).unwrap()),
                         };
+                        let col: ArrayRef = if std::env::var("C25_ALLTRUE").is_ok() && !nulls && nullable {
+                            // a validity bitmap that is present and all true
+                            arrow_array::make_array(col.to_data().into_builder().nulls(Some(arrow_buffer::NullBuffer::new_valid(rows))).build().unwrap())
+                        } else {
+                            col
+                        };
                         let mut md = std::collections::HashMap::new();
                         md.insert("lance-encoding:structural-encoding".to_string(), "fullzip".to_string());
                         let schema = Arc::new(Schema::new(vec![Field::new("c", col.data_type().clone(), nullable).with_metadata(md)]));
